@@ -56,6 +56,7 @@ def run_generator(m, files, requests, charsub=(' /', '-'), extension='.html', in
     it.max_unroll = 140
     outs = it.run_function(fn, env={'self': me, '__yields@0': []})
     need(not it.imprecise, '_newFilename: %s' % it.imprecise[:2])
+    need(not it.unknown_branches, '_newFilename: test not determined: %s' % it.unknown_branches[:2])
     res = set()
     for kind, s2, v in outs:
         ys = s2.env.get('__yields@0')
